@@ -11,10 +11,12 @@
 /* provided by core_block_tu.c (which textually includes the working tree's lltdBlock.c) */
 void verif_reset_iface_states(void);
 size_t verif_iface_state_count(void);
+int verif_reset_level(void);
 
 void br_parse_frame(void *frame, void *ctx) { parseFrame(frame, ctx); }
 void br_reset_iface_states(void) { verif_reset_iface_states(); }
 size_t br_iface_state_count(void) { return verif_iface_state_count(); }
+int br_reset_level(void) { return verif_reset_level(); }
 
 void *br_init_mapping(void) { return init_automata_mapping(); }
 void *br_init_enumeration(void) { return init_automata_enumeration(); }
